@@ -642,7 +642,7 @@ Proof.
   - set (left := lenN raw mod 4294967296).
     assert (Hl : left <= lenN raw) by (apply N.mod_le; discriminate).
     set (iv' := if iv =? 0 then (left / cnt) mod 256 else iv).
-    destruct (left <? iv' * cnt) eqn:E; [do 5 eexists; split; [reflexivity|lia]|]. bools.
+    destruct (iv' * cnt =? left) eqn:E; cbn [negb]; [|do 5 eexists; split; [reflexivity|lia]]. bools.
     destruct (iv' =? 0) eqn:E0; [do 5 eexists; split; [reflexivity|lia]|]. bools.
     assert (cnt <= lenN raw) by nia.
     destruct ((iv' =? 8) || (iv' =? 16)); do 5 eexists; (split; [reflexivity|]); lia.
